@@ -394,6 +394,11 @@ def gen_edit(rng, spec, prob=0.12):
     """Attach a log edit (insert_absence_time_list after the run) to a forward spec without history."""
     if spec.get("history") is None and rng.random() < prob:
         ed = sorted(set(rng.randint(0, 12) for _ in range(rng.randint(1, 3))))
+        ab = [a for a in spec["cfg"].get("absence", []) if a < 14]
+        if ab and rng.random() < 0.4:
+            # inserted steps on both sides of a step that is registered as an absence step already
+            a = rng.choice(ab)
+            ed = sorted(set([max(0, a - rng.randint(0, 2)), a + 1] + ([rng.randint(0, 12)] if rng.random() < 0.3 else [])))
         spec["edit"] = ed
     return spec
 
@@ -426,4 +431,24 @@ def apply_edit(tr, steps):
     marks = [False] * n0
     for s_ in new:
         marks.insert(s_, True)
+    # the steps the project registers as absence steps afterwards: every step registered before, moved back by one for every
+    # step inserted at or before it (one insertion after the other, in ascending order), plus the inserted steps
+    reg = list(registered)
+    for s_ in new:
+        reg = [r + 1 if r >= s_ else r for r in reg]
+        reg.append(s_)
+    tr.registered_after_edit = sorted(reg)
     return o, marks
+
+
+def check_registered(res, tr, prefix):
+    """After an edit of the logs the project's absence_time_list names exactly the absence steps of the edited logs."""
+    exp = getattr(tr, "registered_after_edit", None)
+    if exp is None:
+        return
+    got = sorted(tr.project.absence_time_list)
+    res.count("registered_steps_after_edit_compared")
+    if got != exp:
+        res.add("edit", prefix + ".after_insert_absence.registered_steps",
+                "after insert_absence_time_list(%s) on a result with registered absence steps: project.absence_time_list is %s, the absence "
+                "steps of the edited logs are %s" % (getattr(tr, "edit", None), got, exp), None)
